@@ -568,10 +568,21 @@ class Sim:
                 if var == "Err":
                     return one(enum(OPTION, "None"))
                 return one(U)
-            if short in ("map_err", "or_else") and var is not None:
+            if short == "map_err" and var is not None:
                 if var == good:
                     return one(r)
                 return one(enum(RESULT if "result" in c else OPTION, bad, U))
+            if short == "or_else":
+                if var == good:
+                    return one(r)
+                clo = args[-1]
+                res = self.apply_closure(clo, [field_of(r, "0")] if "result" in c else [], fr, fd, depth, fn) if clo[0] == "c" else None
+                if res is None:
+                    return None
+                outs = [(nfd, v, fr) for nfd, v in res]
+                if var is None:
+                    outs.append((fd, enum(RESULT if "result" in c else OPTION, good, U), fr))
+                return outs
             if short in ("map_err",):
                 # unknown result: Ok keeps its payload, Err stays Err
                 return [(fd, ok_(U), fr), (fd, err_(), fr)]
